@@ -1,0 +1,63 @@
+//go:build verif && linux
+
+package main
+
+import (
+	"context"
+	"encoding/json"
+	"fmt"
+	"os"
+	"testing"
+)
+
+// TestVerifWiring is instrumentation for the verification harness (build tag
+// verif): it reads the litefs.yml named by VERIF_WIRING_CONFIG, builds the
+// store and starts the proxy the way `litefs mount` does (initStore,
+// runProxyServer; no FUSE mount, the store is not opened) and prints, as one
+// JSON line prefixed VERIF-WIRING, what they were given.
+func TestVerifWiring(t *testing.T) {
+	path := os.Getenv("VERIF_WIRING_CONFIG")
+	if path == "" {
+		t.Skip("VERIF_WIRING_CONFIG not set")
+	}
+	data, err := os.ReadFile(path)
+	if err != nil {
+		t.Fatal(err)
+	}
+	c := NewMountCommand()
+	if err := UnmarshalConfig(&c.Config, data, false); err != nil {
+		t.Fatal(err)
+	}
+	ctx := context.Background()
+	if err := c.initStore(ctx); err != nil {
+		t.Fatal(err)
+	}
+	if err := c.runProxyServer(ctx); err != nil {
+		t.Fatal(err)
+	}
+	out := map[string]any{
+		"store_candidate":    c.Store.Candidate(),
+		"store_retention":    c.Store.Retention.String(),
+		"store_demote_delay": c.Store.DemoteDelay.String(),
+		"store_reconnect":    c.Store.ReconnectDelay.String(),
+		"store_compress":     c.Store.Compress,
+	}
+	if c.ProxyServer != nil {
+		defer func() { _ = c.ProxyServer.Close() }()
+		var pass, fwd []string
+		for _, re := range c.ProxyServer.Passthroughs {
+			pass = append(pass, re.String())
+		}
+		for _, re := range c.ProxyServer.AlwaysForward {
+			fwd = append(fwd, re.String())
+		}
+		out["proxy_target"] = c.ProxyServer.Target
+		out["proxy_db"] = c.ProxyServer.DBName
+		out["proxy_max_lag"] = c.ProxyServer.MaxLag.String()
+		out["proxy_passthrough"] = pass
+		out["proxy_always_forward"] = fwd
+		out["proxy_primary_redirect_timeout"] = c.ProxyServer.PrimaryRedirectTimeout.String()
+	}
+	b, _ := json.Marshal(out)
+	fmt.Printf("VERIF-WIRING %s\n", b)
+}
